@@ -507,6 +507,7 @@ func checkC05(c *Ctx) {
 
 	c05Alias(c)
 	c05Inject(c)
+	c03Handover(c) // foreign bytes at every point of the hand-over, incl. while the answer is on its way to the socket
 	scs := c05Scenarios(c)
 	const block = 2000
 	counterAccess := true
